@@ -25,6 +25,7 @@ class Scenario:
     self.elem_typ = {}         # model name -> element typ of a deque / key typ of a dict
     self.sym_inputs = {}       # state variable -> (lo, hi): symbolic initial value
     self.global_locks = []     # (module name, global name, model name) of module-level locks met while translating
+    self.spawned = {}          # tid -> MThread model: programs of threads that the code under test creates and starts
     self.notes = []
 
   def add(self, model):
@@ -312,8 +313,13 @@ class System:
     if isinstance(node, ir.End):
       return alts
     if not isinstance(node, ir.Op):        # entry: a start step
+      guard = B.true()
+      sp = getattr(self.sc, "spawned", {}).get(tid)
+      if sp is not None:
+        # a thread created by the code under test: it can take its first step once Thread.start() has been called on it
+        guard = B.eq(st[sp.v("st")], B.const(1))
       for (c, pc2, st2) in self.run_local(B, prog, node.next, st):
-        alts.append((c, pc2, st2, ("start", None)))
+        alts.append((B.and_(guard, c), pc2, st2, ("<begin>", None)))
       return alts
     for (c, nxt, st2, info) in self.op_outcomes(B, st, prog, node):
       for (c2, pc2, st3) in self.run_local(B, prog, nxt, st2):
@@ -407,4 +413,4 @@ class System:
     if isinstance(node, ir.Op):
       t = node.target.name if isinstance(node.target, M.Model) else "%s[*]" % node.target[0]
       return "%s.%s @%s:%s" % (t, node.name, (node.src or ("?", 0))[0].split(".")[-1], (node.src or ("?", 0))[1])
-    return "start"
+    return "<begin>"
